@@ -34,6 +34,7 @@ type fragInst struct {
 }
 
 type compCtx struct {
+	taken   map[string]bool
 	r       *rng
 	binding [3]int
 	n       int
@@ -270,7 +271,34 @@ var fragLib = []fragGen{
 			stages: stAny,
 		}
 	},
+	// 26: several scalar helpers with control flow (kept as real functions)
+	func(c *compCtx, k int) fragInst {
+		return fragInst{
+			globals: fmt.Sprintf("fn cfA%d(x: f32, n: u32) -> f32 { var r = x; for (var i = 0u; i < n; i++) { r = r * 1.5 + 1.0; } return r; }\nfn cfB%d(x: f32) -> f32 { if (x > 2.0) { return x - 2.0; } return x + 2.0; }\nfn cfC%d(a: u32, b: u32) -> u32 { var m = a; loop { if (m < b) { break; } m = m - b; } return m; }\n", k, k, k),
+			body:    fmt.Sprintf("acc += cfA%d(acc, idx %% 3u) + cfB%d(acc) + f32(cfC%d(idx + 7u, 3u));\n", k, k, k),
+			stages:  stAny,
+		}
+	},
+	// 27: module-scope names from a small vocabulary shared by ALL programs,
+	// declared here as const / private var (other programs declare the same
+	// names as overrides): name tables must not leak between compilations
+	func(c *compCtx, k int) fragInst {
+		a, b := vocab[c.r.intn(len(vocab))], vocab[c.r.intn(len(vocab))]
+		if a == b || c.taken[a] || c.taken[b] {
+			return fragInst{stages: stAny}
+		}
+		c.taken[a], c.taken[b] = true, true
+		return fragInst{
+			globals: fmt.Sprintf("const %s: f32 = 0.125;\nvar<private> %s: f32 = 3.0;\n", a, b),
+			body:    fmt.Sprintf("%s = %s + %s;\nacc += %s * %s;\n", b, b, a, b, a),
+			stages:  stAny,
+		}
+	},
 }
+
+// vocab: identifiers used as overrides by some programs and as constants or
+// variables by others.
+var vocab = []string{"scale", "gain", "depth", "width", "bias_v", "o", "height"}
 
 // push constants (at most one per module)
 func fragPush(c *compCtx, k int) fragInst {
@@ -297,6 +325,11 @@ func fragOverride(c *compCtx, k int, nested bool) fragInst {
 	case 3:
 		fmt.Fprintf(&g, "override ovf%d = 2.5;\n", k)
 	}
+	if v := vocab[c.r.intn(len(vocab))]; !c.taken[v] && c.r.chance(0.6) {
+		c.taken[v] = true
+		fmt.Fprintf(&g, "override %s: f32 = 4.0;\n", v)
+		fmt.Fprintf(&b, "acc += %s;\n", v)
+	}
 	fmt.Fprintf(&g, "override ovu%d: u32 = %du;\n", k, 2+c.r.intn(3))
 	fmt.Fprintf(&g, "override ovb%d: bool = true;\n", k)
 	fmt.Fprintf(&g, "override ovd%d = ovf%d * 2.0;\n", k, k) // derived
@@ -314,7 +347,7 @@ func fragOverride(c *compCtx, k int, nested bool) fragInst {
 
 // composeProgram builds one program. withOverrides: 0 none, 1 flat uses only, 2 nested uses.
 func composeProgram(r *rng, name string, withOverrides int) proto.Source {
-	c := &compCtx{r: r}
+	c := &compCtx{r: r, taken: map[string]bool{}}
 	// instantiate a random subset of fragments
 	var frags []fragInst
 	nf := 3 + r.intn(6)
@@ -322,6 +355,17 @@ func composeProgram(r *rng, name string, withOverrides int) proto.Source {
 	for i := 0; i < nf; i++ {
 		frags = append(frags, fragLib[r.intn(len(fragLib))](c, k))
 		k++
+	}
+	// doubling: two or three instances of ONE fragment kind, so that tables
+	// keyed by that feature hold several entries within one entry point
+	forced := map[int]bool{}
+	if r.chance(0.6) {
+		kind := r.intn(len(fragLib))
+		for i := 0; i < 2+r.intn(2); i++ {
+			forced[len(frags)] = true
+			frags = append(frags, fragLib[kind](c, k))
+			k++
+		}
 	}
 	if r.chance(0.3) {
 		frags = append(frags, fragPush(c, k))
@@ -345,12 +389,21 @@ func composeProgram(r *rng, name string, withOverrides int) proto.Source {
 		src.WriteString("override wgx: u32 = 8u;\n")
 		wgOverride = "wgx"
 	}
+	var lateConsts strings.Builder
 	for e := 0; e < nEP; e++ {
 		st := stages[r.intn(len(stages))]
+		if e == 0 && len(forced) > 0 {
+			// a stage that accepts the doubled fragments
+			for fi := range frags {
+				if forced[fi] && frags[fi].stages&st == 0 {
+					st = stCompute
+				}
+			}
+		}
 		var body strings.Builder
 		used := 0
-		for _, f := range frags {
-			if f.stages&st != 0 && f.body != "" && (r.chance(0.6) || used == 0) {
+		for fi, f := range frags {
+			if f.stages&st != 0 && f.body != "" && (r.chance(0.6) || used == 0 || (forced[fi] && e == 0)) {
 				body.WriteString(f.body)
 				used++
 			}
@@ -365,6 +418,10 @@ func composeProgram(r *rng, name string, withOverrides int) proto.Source {
 				wg = wgOverride
 			} else if r.chance(0.3) {
 				wg = "8, 4, 2"
+			} else if r.chance(0.4) {
+				// attribute arguments naming constants declared LATER in the file
+				wg = fmt.Sprintf("WGX_%d, WGY_%d, WGZ_%d", e, e, e)
+				fmt.Fprintf(&lateConsts, "const WGZ_%d: u32 = 1u;\nconst WGX_%d: u32 = 4u;\nconst WGY_%d: u32 = 2u;\n", e, e, e)
 			}
 			fmt.Fprintf(&src, "@compute @workgroup_size(%s)\nfn cs_%d(@builtin(global_invocation_id) gid: vec3<u32>, @builtin(local_invocation_index) lid: u32) {\n  var acc: f32 = f32(lid);\n  let idx = gid.x;\n%s  sink[idx] = acc;\n}\n", wg, e, ind(body.String()))
 		case stVertex:
@@ -373,6 +430,7 @@ func composeProgram(r *rng, name string, withOverrides int) proto.Source {
 			fmt.Fprintf(&src, "@fragment\nfn fs_%d(in: VOut) -> @location(0) vec4<f32> {\n  var acc: f32 = in.uv.x;\n  let idx = in.id;\n%s  return vec4<f32>(acc, in.uv, 1.0);\n}\n", e, ind(body.String()))
 		}
 	}
+	src.WriteString(lateConsts.String())
 	return proto.Source{Name: name, WGSL: src.String()}
 }
 
